@@ -8,7 +8,7 @@ BASE_OFF = ("cd /repo && cargo nextest run --workspace --no-fail-fast --tool-con
 CHECKS = {
  "C09": dict(
    technique="static analysis: all-paths make/unmake balance dataflow over type-checked MIR (rustc_private driver), path counting of best_move emissions, panic-site inventory of the search thread",
-   text="Every CFG path of every function outside the board crate is explored in the product (block x outstanding makes x return kind); a path that returns with a move still made on a borrowed board is reported with its witness. This decides the take-back mechanism for every interruption point at once; it does not decide score equality. R3 (shared with C07.R4): the panic-site inventory of the search thread, because 'an interrupted search still answers with exactly one bestmove' fails if the thread dies between the interruption and the answer (Duration arithmetic, unwrap, indexing).",
+   text="Every CFG path of every function outside the board crate is explored in the product (block x outstanding makes x return kind); a path that returns with a move still made on a borrowed board is reported with its witness. This decides the take-back mechanism for every interruption point at once; it does not decide score equality. R3 (shared with C07.R4): the panic-site inventory of the search thread, because 'an interrupted search still answers with exactly one bestmove' fails if the thread dies between the interruption and the answer (Duration arithmetic, unwrap, indexing). R4: every go starts with cleared search flags (reset unconditional, called before the search), and nothing between an iteration's return and the test of the stop flag can set that flag, so the answer is the last completed iteration's.",
    note="Trusted: rustc's MIR construction and callee resolution, the JSON fact extractor, the ~100-line exploration. Assumes make/unmake are the only in-place board mutators used by the search (C03 checks they mirror each other). Unwind paths ignored.",
    ref="4/C09"),
  "C13": dict(
@@ -23,7 +23,7 @@ CHECKS = {
    ref="4/C07"),
  "C12": dict(
    technique="static analysis: panic-site inventory over the resolved call graph of the FEN reader/writer with constant folding and reviewed guard arguments; reader/writer table agreement on compiler-evaluated constants",
-   text="Decides 'no input string makes the FEN parser panic' up to reviewed guard arguments tied to the FEN grammar: every Assert terminator and every panicking API call reachable from Fen::from_str, Bitboard::from(&Fen) and Fen::from(&Bitboard) is auto-discharged or reviewed by exact key; the clock-field sites require a machine-checked u32 guard in Fen::from_str. Structural agreement of reader and writer tables; extra conditions a reader puts on a castling right must be the king's and that wing's rook's home squares (geometry oracle); R5: validate_rank answers Ok only after the square count was compared with 8 and the adjacent-digit scan ran to the end of the rank, every rank is validated, and from_str validates before answering Ok. Does not decide exact decoding of every FEN.",
+   text="Decides 'no input string makes the FEN parser panic' up to reviewed guard arguments tied to the FEN grammar: every Assert terminator and every panicking API call reachable from Fen::from_str, Bitboard::from(&Fen) and Fen::from(&Bitboard) is auto-discharged or reviewed by exact key; the clock-field sites require a machine-checked u32 guard in Fen::from_str. Structural agreement of reader and writer tables; extra conditions a reader puts on a castling right must be the king's and that wing's rook's home squares (geometry oracle); R6: the e.p. field reader decodes all 16 possible targets (general helper or complete literal table). R5: validate_rank answers Ok only after the square count was compared with 8 and the adjacent-digit scan ran to the end of the rank, every rank is validated, and from_str validates before answering Ok. Does not decide exact decoding of every FEN.",
    note="Trusted: rustc MIR, extractor, reviewed guard arguments (tables/panic_sites.json), panic API list; regex crate assumed to implement the pattern as written.",
    ref="4/C12"),
  "C15": dict(
@@ -38,7 +38,7 @@ CHECKS = {
    ref="4/C03"),
  "C10": dict(
    technique="static analysis: constant evaluation of trait constants per implementing type, exhaustive folding of every comparison that involves Bitboard.halfmove_clock over clock 0..4200 x side to move, dominance / post-dominance of history writes, region inspection of the repetition branch",
-   text="Decides that no comparison involving the ply counter - directly, inside an arithmetic expression or behind a helper, evaluated for every clock value 0..4200, both sides to move and every implementing heuristic - can select the fifty-move draw below 100 plies, that every node which expands children has recorded itself in the history first, that a clock guard in front of the repetition test lets every clock >= 8 through, that the history is written before it is counted and after every replayed move, that the repetition threshold is exactly three and that the repetition value is built from the draw score / contempt / ply parity only. Does not decide repetition counting over arbitrary histories.",
+   text="Decides that no comparison involving the ply counter - directly, inside an arithmetic expression or behind a helper, evaluated for every clock value 0..4200, both sides to move and every implementing heuristic - can select the fifty-move draw below 100 plies, that every node which expands children has recorded itself in the history first, that the position replay starts from an empty history, that the repetition test precedes every transposition-table probe (only the root and a clock guard may skip it), that a clock guard in front of the repetition test lets every clock >= 8 through, that the history is written before it is counted and after every replayed move, that the repetition threshold is exactly three and that the repetition value is built from the draw score / contempt / ply parity only. Does not decide repetition counting over arbitrary histories.",
    note="Trusted: rustc const evaluation and MIR, the extractor. Assumes make adds exactly 1 to the clock per ply (C02.R3).",
    ref="4/C10"),
  "C14": dict(
@@ -95,7 +95,7 @@ CHECKS = {
    ref="4/C01"),
  "C08": dict(
    technique="static analysis: operand-shape inspection of the recursive calls, sign-parity dataflow of the child value, control-dependence classification of transposition bound types, and a reviewed inventory (exact keys) of every exit / loop skip / loop break of the two recursive searches, all on MIR",
-   text="Decides the negamax sign discipline of both recursive searches (window = negated own beta, negated own alpha; sign-parity dataflow: every use of the child's value sees it negated exactly once), the transposition-table bound classification on store and probe, that the evaluator's legal-moves flag is backed by evidence, and - R4 - that every way the two searches stop searching (every exit, every move skipped without the recursive call, every way out of the move loop) is one of 18 reviewed ones (tables/search_exits.json, keyed by the atoms of its immediate guard): a new cut-off (delta/futility/late-move pruning, an early fail-low) is reported until someone argues it sound. These are necessary conditions of exact minimax values; values, pruning soundness in general and mate distances are not decided.",
+   text="Decides the negamax sign discipline of both recursive searches (window = negated own beta, negated own alpha; sign-parity dataflow: every use of the child's value sees it negated exactly once), the transposition-table bound classification on store and probe, that the evaluator's legal-moves flag is backed by evidence, and - R4 - that every way the two searches stop searching (every exit, every move skipped without the recursive call, every way out of the move loop) is one of 18 reviewed ones (tables/search_exits.json, keyed by the atoms of its immediate guard): a new cut-off (delta/futility/late-move pruning, an early fail-low) is reported until someone argues it sound; R5: each search iterates the list its own generator call produced for the node (generator call dominates the move loop, the list is not shrunk before it). These are necessary conditions of exact minimax values; values, pruning soundness in general and mate distances are not decided.",
    note="Trusted: rustc MIR, the extractor. Thin claim by design (DESIGN.md section 4/C08).",
    ref="4/C08"),
 }
